@@ -145,14 +145,38 @@ def p_int(itp, name, args, kw, node, st):
         return v
     n = N(v)
     if n is not None and n.ex is not None:
-        fl = n.ex.floor()
-        if fl is not None:
-            if fl.is_const():
-                return Const(int(fl.c), n.taint)
-            return IntV(fl, n.taint)
+        r_ = _trunc_aff(itp, n.ex, node, 'int()')
+        if r_ is not None:
+            if r_.is_const():
+                return Const(int(r_.c), n.taint)
+            return IntV(r_, n.taint)
     r = IntV(None, taint_of(v))
     _fwd_bounds(v, r, integral_only=True)
     return r
+
+
+def _trunc_aff(itp, ex, node, what):
+    """int(x) / astype(int) truncate TOWARD ZERO: floor for x >= 0, ceiling for x < 0.  For an exact value that is never an
+    integer (a half-integer like a - N/2 with N odd) and takes both signs over its range the result is not one affine form: the
+    negative half rounds up and the positive half down, so an index grid built from it has a repeated 0 and every positive entry
+    one step low.  Returns the affine result, or None (after recording the conflict when the mixed case is certain)."""
+    if ex.is_integral():
+        return ex
+    lo = ex._bound(True) if any(s_ in Aff.BOUNDS for s_ in ex.t) else ex
+    hi = ex._bound(False) if any(s_ in Aff.BOUNDS for s_ in ex.t) else ex
+    pos = lo is not None and lo.nonneg()
+    neg = hi is not None and (-hi).nonneg()
+    if pos:
+        return ex.floor()
+    if neg:
+        return ex.ceil()
+    frac_const = all(v_.denominator == 1 for v_ in ex.t.values()) and ex.c.denominator != 1
+    spans = lo is not None and hi is not None and (-lo).sign() == 1 and hi.sign() == 1 and any(s_ in Aff.BOUNDS for s_ in ex.t)
+    if frac_const and spans:
+        itp.conflict('round', 'index', '%s of %s, which is never an integer and takes both signs over the loop: truncation toward zero rounds '
+                     'the negative values up and the positive ones down, so 0 occurs twice and every positive index is one too low'
+                     % (what, ex), node)
+    return None
 
 
 def _fwd_bounds(src, dst, integral_only=False):
@@ -208,6 +232,15 @@ def p_abs(itp, name, args, kw, node, st):
         from .interp_expr import relabel
         r.seg = relabel(n.seg)
         r.segax = n.segax
+    if not n.nonneg and not n.zero:
+        # a modulus taken of values that may be negative / complex: sum(|w|) is not |sum(w)| (label ABS:n in the dependence set; the
+        # square of the modulus itself is the plain square again, see num_pow)
+        if not hasattr(itp, 'abs_nodes'):
+            itp.abs_nodes = {}
+        lab = 'ABS:%d' % len(itp.abs_nodes)
+        itp.abs_nodes[lab] = (node, itp.cur.qname if itp.cur else '')
+        r.taint = r.taint | frozenset([lab])
+        r.abs_label = lab
     USED.add('abs: |c^p conj(c)^q v| = |c|^(p+q) |v|  (phase exponent -> 0), result real >= 0')
     return r
 
@@ -342,6 +375,15 @@ def p_prod(itp, name, args, kw, node, st):
             r.deg[c] = TOP
         else:
             r.deg[c] = dmul(n.deg[c], cnt if not cnt.is_Integer else F(int(cnt)))
+    # a product whose scaling degree grows with an array length: c**n leaves the floating-point range for data scales away from 1
+    dg = r.deg.get('s')
+    try:
+        if dg is not TOP and not isinstance(dg, F) and getattr(dg, 'free_symbols', None):
+            num_, den_ = sp.fraction(sp.together(dg))
+            if any(sp.degree(num_, s_) > sp.degree(den_, s_) for s_ in dg.free_symbols):
+                itp.events.append(('unbounded-degree', node, str(dg), itp.cur.qname if itp.cur else ''))
+    except Exception:
+        pass
     USED.add('prod over n elements of degree d has degree n*d')
     return r
 
@@ -441,6 +483,8 @@ def p_same(itp, name, args, kw, node, st):
             return Opaque('list')
         return mk(itp, name, v)
     r = n.copy()
+    if name in ('numpy.sort', 'builtins.sorted'):
+        itp.events.append(('sort', node, n.taint, itp.cur.qname if itp.cur else ''))
     if name in ('numpy.sort', 'builtins.sorted') and n.cplx is True and not n.rv:
         # numpy / python order complex numbers lexicographically (real part first), not by angle or modulus
         itp.events.append(('complex-sort', node, itp.cur.qname if itp.cur else ''))
@@ -493,6 +537,8 @@ def p_isinstance(itp, name, args, kw, node, st):
             return BoolV(False, taint_of(v))
 
     def kind(v):
+        if isinstance(v, Const) and getattr(v, 'npint', False):
+            return 'int64'          # a numpy integer scalar (argmin()+1, mask.sum()): not an instance of the builtin int
         if isinstance(v, Const):
             return type(v.v).__name__
         if isinstance(v, IntV):
@@ -514,7 +560,9 @@ def p_isinstance(itp, name, args, kw, node, st):
         return Const(False)
     if k is None:
         return BoolV(False, taint_of(v))
-    ok = any(isinstance(t, str) and (t == k or (t == 'int' and k == 'bool')) for t in names)
+    ok = any(isinstance(t, str) and (t == k or (t == 'int' and k == 'bool') or
+                                     (k == 'int64' and t in ('integer', 'signedinteger', 'number', 'generic', 'Integral', 'Number', 'int_', 'intp')))
+             for t in names)
     return Const(ok, taint_of(v))
 
 
@@ -693,6 +741,7 @@ def p_zeros(itp, name, args, kw, node, st):
     # the *contents* of a fresh buffer depend on nothing; a dependence on its size is carried by the shape itself
     r = Num(zero_deg(), shape, cplx, zero=base.startswith(('zeros', 'empty')), taint=frozenset())
     r.fill = 0 if base.startswith('zeros') else (1 if base.startswith('ones') else None)
+    r.uninit = base.startswith('empty')
     if base.startswith('zeros') and shape is not None and len(shape) == 1 and shape[0] is not None:
         from . import cover as CV
         r.cover = CV.whole(shape[0], 'zero')
@@ -707,6 +756,14 @@ def p_zeros(itp, name, args, kw, node, st):
 @prim('numpy.arange')
 def p_arange(itp, name, args, kw, node, st):
     a = [_int_aff(x) for x in args]
+    if len(args) == 2 and None in a:
+        # exact non-integral bounds (arange(-N/2, N/2) with N odd): the values are lo + i, lo + hi - lo of them when that is integral
+        ex = [getattr(N(x), 'ex', None) if N(x) is not None else None for x in args]
+        if all(e_ is not None for e_ in ex) and (ex[1] - ex[0]).is_integral():
+            r = Num(zero_deg(), (ex[1] - ex[0],), False, taint=taints(*args))
+            r.q = Aff(0)
+            r.fracgrid = (ex[0], ex[1] - ex[0])          # first value (not an integer) and count
+            return r
     if len(args) == 1:
         lo, hi = Aff(0), a[0]
     else:
@@ -821,6 +878,15 @@ def p_astype(itp, name, args, kw, node, st):
             r_ = IntV(None, n.taint)
             _fwd_bounds(args[0], r_, integral_only=True)
             return r_
+        fg = getattr(args[0], 'fracgrid', None)
+        if fg is not None:
+            lo_, cnt_ = fg
+            hi_ = lo_ + cnt_ - 1
+            frac_const = all(v_.denominator == 1 for v_ in lo_.t.values()) and lo_.c.denominator != 1
+            if frac_const and (-lo_).sign() == 1 and hi_.sign() == 1:
+                itp.conflict('round', 'index', 'astype(int) of the values %s, %s+1, ... which are never integers and take both signs: '
+                             'truncation toward zero rounds the negative ones up and the positive ones down, so 0 occurs twice and every '
+                             'positive index is one too low' % (lo_, lo_), node)
         return n.copy(cplx=False)
     c = _dtype_cplx(t, None)
     r = n.copy()
@@ -1400,6 +1466,8 @@ def p_fft(itp, name, args, kw, node, st):
     src_ = args[0] if isinstance(args[0], Num) else a
     for alt_ in CV.mixed(src_.cover):
         itp.events.append(('fft-stale-input', node, CV.show(alt_), itp.cur.qname if itp.cur else ''))
+    if getattr(src_, 'uninit', False):
+        itp.events.append(('fft-uninit-input', node, itp.cur.qname if itp.cur else ''))
     itp.events.append(('fft-out', node, r.shape, itp.cur.qname if itp.cur else ''))
     if itp.d4:
         itp.events.append(('fft-q', node, a.q, itp.cur.qname if itp.cur else ''))
@@ -1773,6 +1841,10 @@ def p_maximum(itp, name, args, kw, node, st):
         return mk(itp, name, *args)
     r = num_add(itp, a, b, node, 'concat')
     r.ex = None
+    # a bound applied element by element: (kind, the constant bound if one operand is a literal)
+    lit = [x.v for x in args[:2] if isinstance(x, Const) and isinstance(x.v, (int, float))]
+    itp.events.append(('clip', node, 'upper' if name.split('.')[-1] in ('minimum', 'fmin') else 'lower', lit[0] if lit else None,
+                       a.taint | b.taint, itp.cur.qname if itp.cur else ''))
     return r
 
 
@@ -1781,6 +1853,12 @@ def p_clip(itp, name, args, kw, node, st):
     a = N(args[0])
     if a is None:
         return mk(itp, name, *args)
+    lo_ = arg(args, kw, 1, 'a_min', kw.get('min'))
+    hi_ = arg(args, kw, 2, 'a_max', kw.get('max'))
+    for kind_, b_ in (('lower', lo_), ('upper', hi_)):
+        if b_ is not None and not (isinstance(b_, Const) and b_.v is None):
+            itp.events.append(('clip', node, kind_, b_.v if isinstance(b_, Const) and isinstance(b_.v, (int, float)) else None,
+                               a.taint | taint_of(b_), itp.cur.qname if itp.cur else ''))
     r = a.copy()
     r.ex = None
     for b in list(args[1:3]) + [kw.get('a_min'), kw.get('a_max'), kw.get('min'), kw.get('max')]:
@@ -1937,6 +2015,58 @@ def p_getitem(itp, name, args, kw, node, st):
     if len(args) != 2:
         return mk(itp, name, *args)
     return itp.index_value(args[0], args[1], node)
+
+
+@prim('numpy.allclose', 'numpy.isclose')
+def p_allclose(itp, name, args, kw, node, st):
+    """allclose(a, b, rtol=1e-5, atol=1e-8) tests |a - b| <= atol + rtol*|b|: unless atol is 0 the test compares a quantity that
+    scales with the data against an absolute constant, so the decision depends on the amplitude (a scale-variant decision)"""
+    if len(args) < 2:
+        return mk(itp, name, *args)
+    a, b = args[0], args[1]
+    rtol = arg(args, kw, 2, 'rtol', Const(1e-5))
+    atol = arg(args, kw, 3, 'atol', Const(1e-8))
+    cap = []
+    save = itp._capture
+    itp._capture = cap
+    try:
+        d = itp.binop(ast.Sub(), a, b, node)
+        left = p_abs(itp, 'numpy.abs', [d], {}, node, st)
+        right = itp.binop(ast.Mult(), rtol, p_abs(itp, 'numpy.abs', [b], {}, node, st), node)
+        nl, nr, na = N(left), N(right), N(atol)
+        if nl is not None and nr is not None:
+            num_add(itp, nl, nr, node, 'compare')
+        if na is not None and not na.zero and nl is not None:
+            num_add(itp, nl, na, node, 'compare')          # the absolute term
+    finally:
+        itp._capture = save
+    labels = frozenset(itp.new_variant(c.comp, 'comparison is not invariant (%s has an absolute tolerance atol=%s): %s'
+                                       % (name.split('.')[-1], getattr(atol, 'v', '?'), c.msg), node) for c in cap)
+    t = taints(a, b, rtol, atol) | labels
+    if name.endswith('allclose'):
+        return BoolV(bool(labels), t)
+    nl = N(left)
+    m = Num(zero_deg(), nl.shape if nl is not None else None, False, taint=t)
+    m.role = 'mask'
+    return m
+
+
+@prim('numpy.count_nonzero')
+def p_count_nonzero(itp, name, args, kw, node, st):
+    """the number of true / non-zero entries: an integer decided by the values (the mask keeps its scale-variance labels)"""
+    return IntV(None, taints(*args))
+
+
+@prim('numpy.shape')
+def p_npshape(itp, name, args, kw, node, st):
+    from .interp_expr import attr_of
+    return attr_of(itp, args[0], 'shape', st, node) if args else mk(itp, name)
+
+
+@prim('numpy.size', 'numpy.ndim')
+def p_npsize(itp, name, args, kw, node, st):
+    from .interp_expr import attr_of
+    return attr_of(itp, args[0], name.split('.')[-1], st, node) if len(args) == 1 else mk(itp, name, *args)
 
 
 @prim('list.pop')
